@@ -183,6 +183,13 @@ class Models:
         if isinstance(v, VGen): return self.m_len(I, [v.lst], k)
         if isinstance(v, VPyConst): return VInt(len(v.obj))
         if isinstance(v, (VNone, VInt, VBool, VRef)): I.raise_py(TypeError)
+        if isinstance(v, VDyn):
+            # a dynamically typed value: str (kind 2) and bytes (kind 4) have a length, None / int / bool raise TypeError,
+            # any other object (kind 3) is outside the subset
+            if I.ctx.branch(z3.Or(v.kind == 2, v.kind == 4)):
+                return VInt(z3.Length(v.s))
+            if I.ctx.branch(z3.Or(v.kind == 0, v.kind == 1)):
+                I.raise_py(TypeError)
         raise OutOfSubset('len of %r' % (v,))
 
     def py_kind(self, v):
